@@ -26,6 +26,7 @@ import (
 	"github.com/robustirc/robustirc/internal/outputstream"
 	"github.com/robustirc/robustirc/internal/raftstore"
 	"github.com/robustirc/robustirc/internal/robust"
+	"github.com/robustirc/robustirc/internal/verifhook"
 	"github.com/stapelberg/glog"
 )
 
@@ -388,6 +389,7 @@ func (api *HTTP) applyMessageWait(msg *robust.Message, timeout time.Duration) er
 	if err, ok := f.Response().(error); ok {
 		return err
 	}
+	verifhook.At("api.applied", "index", f.Index(), "msg", msg)
 	msg.Id.Id = robust.IdFromRaftIndex(f.Index())
 	return nil
 }
